@@ -38,7 +38,8 @@ ASSUMPTIONS = [
 def state_case(draw):
     kind = draw(st.sampled_from(['entangled', 'entangled', 'blocks', 'blocks_large']))
     c = {'kind': kind, 'cplx': draw(st.sampled_from([True, True, False])), 'seed': draw(gen.SEED), 'useed': draw(gen.SEED),
-         'samples': draw(st.sampled_from([1, 2, 5, 20, 60, 200])), 'gate_in_place': draw(st.sampled_from([False, True]))}
+         'samples': draw(st.sampled_from([1, 2, 5, 20, 60, 200])), 'gate_in_place': draw(st.sampled_from([False, True])),
+         'signed': draw(st.sampled_from([False, False, True])), 'hadamard_gauge': draw(st.booleans())}
     if kind == 'entangled':
         n = draw(st.integers(1, 7))
         c['blocks'] = [n]
@@ -68,11 +69,17 @@ def state_case(draw):
     return c
 
 
-def block_state(rng, q, rank, cplx):
+def block_state(rng, q, rank, cplx, signed=False):
     """dense normalised state of q qubits with TT ranks <= rank, and its cores"""
     mr = dense.max_ranks([2] * q)
     r = [1] + [min(rank, mr[i]) for i in range(1, q)] + [1]
     cores = [build.rand_array(rng, (r[i], 2, 1, r[i + 1]), cplx) for i in range(q)]
+    if signed:
+        # stabiliser-like structure: every core entry is +1, -1 (or 0): GHZ / cluster / graph states in a +/- bond basis, where sums
+        # of environment entries cancel EXACTLY although the probabilities do not
+        cores = [rng.choice([1.0, -1.0, 1.0, -1.0, 0.0], size=c.shape).astype(c.dtype) for c in cores]
+        if np.linalg.norm(dense.contract(cores)) == 0:
+            cores = [np.ones_like(c) for c in cores]
     v = dense.contract(cores).reshape(-1)
     cores[0] = cores[0] / np.linalg.norm(v)
     return v / np.linalg.norm(v), cores
@@ -108,9 +115,16 @@ def body(c):
     n = sum(blocks)
     cores, dense_blocks = [], []
     for q in blocks:
-        v, cr = block_state(rng, q, c['rank'], c['cplx'])
+        v, cr = block_state(rng, q, c['rank'], c['cplx'], signed=bool(c.get('signed')))
         dense_blocks.append(v)
         cores += cr
+    if c.get('signed') and c.get('hadamard_gauge'):
+        # keep the +/- structure: insert H H on every bond instead of a QR sweep, then right-orthonormalise only if needed
+        Hd = np.array([[1.0, 1.0], [1.0, -1.0]]) / np.sqrt(2.0)
+        for i in range(len(cores) - 1):
+            if cores[i].shape[3] == 2:
+                cores[i] = np.tensordot(cores[i], Hd, axes=([3], [0]))
+                cores[i + 1] = np.tensordot(Hd, cores[i + 1], axes=([1], [0]))
     cores = dense.qr_right(cores)
     nrm = np.linalg.norm(cores[0])
     cores[0] = cores[0] / nrm
@@ -172,6 +186,8 @@ def body(c):
         lab.add('measured>64')
     if N > 4096:
         lab.add('samples>4096')
+    if c.get('signed'):
+        lab.add('sign_structured_state')
     if calls == [(N, k)]:
         want_s, want_c = np.unique(pred, return_counts=True, axis=0)
         ok = samples.shape == want_s.shape and np.array_equal(samples.astype(int), want_s) and np.allclose(freqs, want_c / N, rtol=0, atol=1e-12)
